@@ -133,7 +133,8 @@ def _replay(ob, family, esc, delims, s):
 
 # ---- E2 ---------------------------------------------------------------------------------------------------------------
 def _e2_task(args):
-    family, esc, n, exclude_known, timeout_ms = args
+    family, esc, n, exclude_known, timeout_ms = args[:5]
+    no_trunc = len(args) > 5 and args[5]
     import z3
     import pysym
     from pysym import SymStr, SymChar, reshim, Or, And, Not, Unsupported
@@ -142,13 +143,13 @@ def _e2_task(args):
     bd.re = reshim
     bd27.re = reshim
     t0 = time.time()
-    res = {'family': family, 'esc': esc, 'n': n, 'queries': 0, 'solver_s': 0.0, 'cex': [], 'unknown': [], 'unsat': 0, 'known_family_sat': None}
+    res = {'family': family + ('/4' if len(args) > 5 and args[5] else ''), 'esc': esc, 'n': n, 'queries': 0, 'solver_s': 0.0, 'cex': [], 'unknown': [], 'unsat': 0, 'known_family_sat': None}
     try:
         s = z3.Solver()
         s.set('timeout', timeout_ms)
         value = SymStr.fresh('s', n, solver=s)
         dom = [p for p in PUNCT if p != ord(esc)]
-        roles = ROLES4 + (['TRUNCATION'] if family_has_truncation(family) else [])
+        roles = ROLES4 + (['TRUNCATION'] if family_has_truncation(family) and not no_trunc else [])
         dvars = [z3.BitVec('d_%s' % r, 8) for r in roles]
         for dv in dvars:
             s.add(z3.Or(*[dv == p for p in dom]))
@@ -247,6 +248,8 @@ def _e2_escape(tier, seed, nproc):
         for esc in ESCAPES:
             for n in range(0, NMAX + 1):
                 tasks.append((family, esc, n, exclude, 120000))
+                if family_has_truncation(family) and n <= 8:
+                    tasks.append((family, esc, n, exclude, 120000, True))     # the legal 4-character MSH-2 of v2.7+
     tasks.sort(key=lambda t: -t[2])
     with multiprocessing.get_context('fork').Pool(nproc) as pool:
         results = pool.map(_e2_task, tasks, chunksize=1)
@@ -266,7 +269,7 @@ def _e2_escape(tier, seed, nproc):
         for u in r['unknown']:
             inconclusive.append('%s: %s undecided (solver timeout)' % (key, u))
         for c in r['cex']:
-            cex.append({'call': '_replay(%r, %r, %r, %r, %r)' % (c['ob'], r['family'], r['esc'], c['delims'], c['s']),
+            cex.append({'call': '_replay(%r, %r, %r, %r, %r)' % (c['ob'], r['family'].split('/')[0], r['esc'], c['delims'], c['s']),
                         'message': '%s %s' % (key, c['ob'])})
     fams = members
     status = 'refuted' if cex else ('unknown' if inconclusive else 'confirmed')
